@@ -212,6 +212,7 @@ def run(ctx):
                         'candidate selection of %s differs from the model predicate' % kind, 'Vakt.C07.candidate_sound',
                         line=line)
             f.signature = 'model:' + base
+            f.weak = True      # which non-matching policies a storage offers is not prescribed (C07: superset + same decision)
             out.failures.append(f)
     out.rule = ('the same generated policy set (string- / rule-based / mixed stores, tag-enclosed and case-varied and '
                 'wildcard-bearing elements aimed at the inquiry) added to Memory and to %d other backends/wrappers; inquiry '
